@@ -28,6 +28,7 @@ import (
 	"math/rand"
 	"net"
 	"net/http"
+	"net/url"
 	"sort"
 	"strings"
 	"testing"
@@ -301,20 +302,21 @@ type vfHsItem struct {
 	W    int            `json:"w"`
 	Dims map[string]int `json:"dims"`
 	Cfg  struct {
-		Mode      string   `json:"mode"`
-		Sel       string   `json:"sel"`
-		Preset    []string `json:"preset"`
-		Protocols []string `json:"protocols"`
-		URL       string   `json:"url"`
-		OURL      string   `json:"ourl"`
+		Mode      string     `json:"mode"`
+		Sel       string     `json:"sel"`
+		Preset    []string   `json:"preset"`
+		Hdr       bool       `json:"hdr"`
+		Protocols []string   `json:"protocols"`
+		URL       string     `json:"url"`
+		OURL      string     `json:"ourl"`
 		Set       [][]string `json:"set"`
 		Version   int        `json:"version"`
 	} `json:"cfg"`
-	Want   map[string]any `json:"want"`
+	Want   map[string]any  `json:"want"`
 	Line   json.RawMessage `json:"line"`
 	Status int             `json:"status"`
-	Hdrs   []vfHsGenLine `json:"hdrs"`
-	Tail   bool          `json:"tail"`
+	Hdrs   []vfHsGenLine   `json:"hdrs"`
+	Tail   bool            `json:"tail"`
 }
 
 type vfHsHijackRW struct {
@@ -349,7 +351,7 @@ func vfHsServer(env *vfEnv, t int, it *vfHsItem) {
 		env.tb.Fatalf("trace %d: rendered head does not lex", t)
 	}
 	env.Emit(t, map[string]any{"e": "head", "kind": "server", "cfg": map[string]any{"mode": it.Cfg.Mode, "sel": it.Cfg.Sel,
-		"preset": vfHsStrs(it.Cfg.Preset)}, "line": start, "hdrs": hdrs, "tail": it.Tail, "dims": it.Dims, "w": it.W})
+		"preset": vfHsStrs(it.Cfg.Preset), "hdr": it.Cfg.Hdr}, "line": start, "hdrs": hdrs, "tail": it.Tail, "dims": it.Dims, "w": it.W})
 
 	toSrv := &vfHsQueue{buf: append([]byte{}, sent...)}
 	toCli := &vfHsQueue{}
@@ -410,7 +412,16 @@ func vfHsServer(env *vfEnv, t int, it *vfHsItem) {
 		case "reject":
 			Server{Handler: h, Handshake: func(*Config, *http.Request) error { return errors.New("verif: not welcome") }}.ServeHTTP(w, req)
 		default:
-			Server{Config: Config{Protocol: append([]string(nil), it.Cfg.Preset...)}, Handler: h, Handshake: cb}.ServeHTTP(w, req)
+			c := Config{Protocol: append([]string(nil), it.Cfg.Preset...)}
+			if it.Cfg.Hdr {
+				c.Header = http.Header{}
+				c.Header.Set("X-Extra", "1")
+				c.Header.Set("Upgrade", "evil")
+				c.Header.Set("Connection", "close")
+				c.Header.Set("Sec-WebSocket-Accept", "ZXZpbA==")
+				c.Header.Set("Sec-WebSocket-Protocol", "evil")
+			}
+			Server{Config: c, Handler: h, Handshake: cb}.ServeHTTP(w, req)
 		}
 	})
 	if p != "" {
@@ -605,6 +616,52 @@ func vfHsClientVersion(env *vfEnv, t int, version int) {
 	env.Emit(t, map[string]any{"e": "cver", "res": vfHsErrClass(err), "wrote": len(reqBytes)})
 }
 
+// DialConfig with a configuration that cannot be dialled (no network is touched); one trace per case
+func vfHsDialErrors(env *vfEnv, t0 int) int {
+	type dc struct {
+		loc, origin bool
+		scheme      string
+	}
+	cases := []dc{{false, true, ""}, {false, false, ""}, {true, false, "ws"}, {true, true, "http"}, {true, true, "https"}, {true, true, ""}}
+	for k, c := range cases {
+		t := t0 + k
+		if !env.Only(t) || env.Hung {
+			continue
+		}
+		env.Emit(t, map[string]any{"e": "head", "kind": "dial"})
+		cfg := &Config{Version: ProtocolVersionHybi13}
+		if c.loc {
+			cfg.Location = &url.URL{Scheme: c.scheme, Host: "example.com", Path: "/ws"}
+		}
+		if c.origin {
+			cfg.Origin = &url.URL{Scheme: "http", Host: "example.com"}
+		}
+		var err error
+		res, text := "", "ok"
+		if p := vfCatchTimeout(20*time.Second, func() { _, err = DialConfig(cfg) }); p != "" {
+			res = p2e(p)
+		} else if de, ok := err.(*DialError); !ok {
+			res = "not-a-DialError"
+		} else {
+			switch de.Err {
+			case ErrBadWebSocketLocation:
+				res = "location"
+			case ErrBadWebSocketOrigin:
+				res = "origin"
+			case ErrBadScheme:
+				res = "scheme"
+			default:
+				res = "net"
+			}
+			if p := vfCatch(func() { _ = err.Error() }); p != "" {
+				text = "panic"
+			}
+		}
+		env.Emit(t, map[string]any{"e": "dial", "loc": c.loc, "origin": c.origin, "scheme": c.scheme, "res": res, "text": text})
+	}
+	return len(cases)
+}
+
 // every handshake of a run carries its own nonce
 func vfHsNonces(env *vfEnv, t int, n int) {
 	env.Emit(t, map[string]any{"e": "head", "kind": "nonces"})
@@ -663,6 +720,9 @@ func TestVerifWsHandshake(t *testing.T) {
 	}
 	if env.Only(base+2) && !env.Hung {
 		vfHsClientVersion(env, base+2, 0)
+	}
+	if env.Bool("dial", true) {
+		base += vfHsDialErrors(env, base+3)
 	}
 	for k := 0; k < env.Int("noncetraces", 2) && !env.Hung; k++ {
 		if env.Only(base + 3 + k) {
